@@ -570,4 +570,4 @@ def replay_determinism(a, runs=8):
         shutil.rmtree(d, ignore_errors=True)
 
 
-SITES = {"C05": [order_independence, single_key_lemmas, process_state_sites], "C12": [process_state_sites]}
+SITES = {"C05": [order_independence, single_key_lemmas, process_state_sites], "C12": [process_state_sites, order_independence]}
